@@ -92,6 +92,7 @@ class Loader:
         stubs = {
             "numpy": BM.make_numpy(),
             "math": BM.make_math(),
+            "bisect": BM.make_bisect(),
             "typing": typing,
             "typing_extensions": typing,
             "textwrap": StubModule("textwrap", {"wrap": Builtin("wrap", BM.b_wrap)}),
